@@ -164,7 +164,9 @@ func (e *Enc) callCommon(c *ssa.CallCommon, site ssa.Instruction, st *State, def
 	}
 	e.callOrd[key]++
 	if isLockOp(key) {
-		return e.lockOp(key, c, args, pos, st, retT)
+		r := e.lockOp(key, c, args, pos, st, retT)
+		e.fireAssertAtCallAfter(c, pos, st, r)
+		return r
 	}
 	ctr := e.DB.Funcs[key]
 	if ctr != nil {
@@ -879,7 +881,7 @@ func (e *Enc) guardCheck(fa *ssa.FieldAddr, base *Val, st *State, pos token.Pos,
 	if g == nil {
 		return
 	}
-	alts := []string{"(> " + base.L[0] + " alloc0)"}
+	alts := []string{}
 	for _, m := range g.Mutexes {
 		if strings.HasPrefix(m, "(") {
 			// "(T).mu": the mutex of the (single) T instance, tracked per type
@@ -903,7 +905,17 @@ func (e *Enc) guardCheck(fa *ssa.FieldAddr, base *Val, st *State, pos token.Pos,
 			}
 		}
 	}
-	e.oblige("guard", fmt.Sprintf("guard.%s.%d", fname, e.nextOrd("guard."+fname)), sOr(alts...), pos, what+" of "+nt.Obj().Name()+"."+fname+" needs "+strings.Join(g.Mutexes, " or ")+" held")
+	// several mutexes = readers-writer protocol: a reader holds any one of them, so a
+	// writer has to hold all of them
+	cond, conj := sOr(alts...), " or "
+	if what == "write" && len(g.Mutexes) > 1 {
+		cond, conj = sAnd(alts...), " and "
+		if len(alts) < len(g.Mutexes) {
+			cond = "false"
+		}
+	}
+	cond = sOr("(> "+base.L[0]+" alloc0)", cond)
+	e.oblige("guard", fmt.Sprintf("guard.%s.%d", fname, e.nextOrd("guard."+fname)), cond, pos, what+" of "+nt.Obj().Name()+"."+fname+" needs "+strings.Join(g.Mutexes, conj)+" held")
 }
 
 func (e *Enc) nextOrd(k string) int { e.ords[k]++; return e.ords[k] }
